@@ -73,13 +73,32 @@ def documents():
 
 DOCS = documents()
 OPTS = ['default', 'props', 'custom']
-CALLS = [(d, o) for d in DOCS for o in OPTS]
+# two more ways of calling, on a few documents: a source-less PyDBML(<options>) instance whose .parse(text) is then used (the options of
+# the instance must not leak anywhere), and PyDBML.parse_file on a file holding the document (it takes no options)
+EXTRA_CALLS = [('table', 'instance'), ('props', 'instance'), ('table', 'file'), ('props', 'file'), ('semantic', 'file')]
+CALLS = [(d, o) for d in DOCS for o in OPTS] + EXTRA_CALLS
 REDUCED = [(d, o) for d in ('table', 'full', 'props', 'syntax-last', 'semantic', 'duplicate', 'nocolumns', 'empty') for o in ('default', 'props')]
 REDUCED_QUICK = [(d, o) for d in ('full', 'props', 'syntax-last', 'semantic', 'nocolumns') for o in ('default', 'props')]
 
 
 def reduced(tier):
     return REDUCED_QUICK if tier == 'quick' else REDUCED
+
+
+def parse_file_of(doc):
+    """write the document to a temporary file, parse it with PyDBML.parse_file, remove the file"""
+    import tempfile
+    from pydbml import PyDBML
+    f = tempfile.NamedTemporaryFile('w', suffix='.dbml', prefix='verif_c11_', delete=False, encoding='utf8', newline='')
+    try:
+        f.write(DOCS[doc])
+        f.close()
+        return PyDBML.parse_file(f.name)
+    finally:
+        try:
+            os.unlink(f.name)
+        except OSError:
+            pass
 
 
 def kwargs_for(opt):
@@ -95,7 +114,12 @@ def do_call(call):
     from pydbml import PyDBML
     doc, opt = call
     try:
-        db = PyDBML(DOCS[doc], **kwargs_for(opt))
+        if opt == 'instance':
+            db = PyDBML(allow_properties=True, sql_renderer=c16.make_renderer('SQLX', 'all')).parse(DOCS[doc])
+        elif opt == 'file':
+            db = parse_file_of(doc)
+        else:
+            db = PyDBML(DOCS[doc], **kwargs_for(opt))
     except BaseException as e:
         import pyparsing
         if isinstance(e, pyparsing.ParseBaseException):
